@@ -475,7 +475,13 @@ def eval_handlers(repo, driver, items):
             got = verdict
             if wrap == 'fake':
                 got = {'A+': 'A', 'A-': 'A', 'XTypeError': 'XT', 'XAttributeError': 'XA'}.get(verdict, verdict)
-            if exp != got:
+            if exp != got and wrap == 'fake':
+                # parameter lists no `def` (and no validated inspect.Signature) can produce are
+                # outside the property's quantifier; the model's explicit TypeError /
+                # AttributeError paths are compared and the differences COUNTED, not judged: a
+                # rewrite of signature_info that keeps every real signature may change them
+                _count(st, 'ill_formed_signature_model_differs')
+            elif exp != got:
                 st['n_dis'] += 1
                 if len(st['disagreements']) < CAP:
                     st['disagreements'].append({'case': case, 'impl': got, 'model': model[i],
